@@ -116,4 +116,83 @@ def reachesRoot (g : Graph) (H : List Term) : Nat → Term → Bool
 def preCheck (g : Graph) (H : List Term) : Bool :=
   H.all (fun x => isBn x && (parentsOf g x).length ≤ 1 && reachesRoot g H (H.length + 1) x)
 
+/-! ### abstract Turtle documents -/
+
+/-- an object (or collection member) of a Turtle statement -/
+inductive Obj
+  | t (x : Term)                                 -- IRI, literal, labelled blank node `_:b`
+  | anon (n : Nat) (ps : List (Term × Obj))      -- `[ p o ; p o … ]`   (`n`: which node of the graph the writer
+                                                 --  put here — an annotation for proofs, ignored by `denote`)
+  | coll (items : List Obj)                      -- `( o o … )`
+
+/-- a statement: labelled subject and its predicate-object list (`s p o , o ; p o .` flattened to pairs) -/
+abbrev Stmt := Term × List (Term × Obj)
+abbrev Doc := List Stmt
+
+/- The Turtle meaning.  The reader's supply of fresh blank nodes is explicit: the node for an anonymous
+   bracket is named by the bracket's position `path` in the document (statement index last), so two brackets
+   never share a node and no bracket gets a node `orig n` of the graph that was written. -/
+mutual
+/-- term denoted by an object at position `path`, and the triples it contributes -/
+def denObj : List Nat → Obj → Term × List Triple
+  | _, .t x => (x, [])
+  | path, .anon _ ps => (.bn (.fresh path), denProps (.bn (.fresh path)) path 0 ps)
+  | path, .coll items => denItems path items
+/-- triples of a predicate-object list with subject `subj`; the `i`-th object sits at position `i :: path` -/
+def denProps (subj : Term) (path : List Nat) : Nat → List (Term × Obj) → List Triple
+  | _, [] => []
+  | i, (p, o) :: rest =>
+    (subj, p, (denObj (i :: path) o).1) :: ((denObj (i :: path) o).2 ++ denProps subj path (i + 1) rest)
+/-- `( o₁ o₂ … )` is `[ rdf:first o₁ ; rdf:rest [ rdf:first o₂ ; rdf:rest … rdf:nil ] ]` (Turtle §2.8) -/
+def denItems (path : List Nat) : List Obj → Term × List Triple
+  | [] => (rdfNil, [])
+  | o :: rest =>
+    ((.bn (.fresh path)),
+     ((.bn (.fresh path)), rdfFirst, (denObj (0 :: path) o).1) :: ((denObj (0 :: path) o).2 ++
+       (((.bn (.fresh path)), rdfRest, (denItems (1 :: path) rest).1) :: ((denItems (1 :: path) rest).2 ++ []))))
+end
+
+def denStmts : Nat → Doc → List Triple
+  | _, [] => []
+  | j, (s, ps) :: rest => denProps s [j] 0 ps ++ denStmts (j + 1) rest
+
+/-- the graph a document denotes -/
+def denote (d : Doc) : Graph := denStmts 0 d
+
+/-- the nested-bracket spelling of a collection -/
+def desugar : List Obj → Obj
+  | [] => .t rdfNil
+  | o :: rest => .anon 0 [(rdfFirst, o), (rdfRest, desugar rest)]
+
+/-! ### the family of serializers: which blank nodes are written inline -/
+
+/-- is `x` one of the blank nodes chosen to be written inline as `[ … ]`? -/
+def inl (I : List Nat) : Term → Bool
+  | .bn (.orig n) => I.contains n
+  | _ => false
+
+def origId : Term → Nat
+  | .bn (.orig n) => n
+  | _ => 0
+
+/-- object position: an inlined node becomes a bracket holding its own predicate-object list, recursively
+    (`p_squared` → `predicateList` → `objectList` → `path`); `fuel` bounds the nesting depth -/
+def emitObj (g : Graph) (I : List Nat) : Nat → Term → Obj
+  | 0, x => .t x
+  | f + 1, x =>
+    if inl I x then .anon (origId x) ((propsOf g x).map (fun po => (po.1, emitObj g I f po.2)))
+    else .t x
+
+def sdedup : List Term → List Term
+  | [] => []
+  | a :: t => if t.contains a then sdedup t else a :: sdedup t
+
+/-- the subjects written at top level: every subject that is not inlined -/
+def topSubjects (g : Graph) (I : List Nat) : List Term :=
+  (sdedup (g.map (·.1))).filter (fun s => !inl I s)
+
+/-- `layout g I F`: one statement per top-level subject -/
+def layout (g : Graph) (I : List Nat) (F : Nat) : Doc :=
+  (topSubjects g I).map (fun s => (s, (propsOf g s).map (fun po => (po.1, emitObj g I F po.2))))
+
 end RV.C03
